@@ -612,8 +612,26 @@ func ruleMonotone(c *Ctx) {
 			if !ok || eng.MethodName(&call.Call) != "SetReadDeadline" {
 				continue
 			}
-			n++
 			v := p.Resolve(eng.Arg(&call.Call, 0))
+			// the table's shutdown expiring an entry through a forwarding method of the association (expireAt(t)): the deadline is
+			// the caller's, and every caller is a method of the table — judged there (SHUTDOWN), not as an extension of the lifetime
+			if pa, isP := v.(*ssa.Parameter); isP && pa.Parent() == f && f.Parent() == nil {
+				onlyTable, ns := true, 0
+				for _, st := range p.CallSitesOf(f) {
+					if p.IsTestSupport(st.Fn) {
+						continue
+					}
+					ns++
+					r := eng.Root(st.Fn)
+					if r.Signature.Recv() == nil || eng.TypeName(r.Signature.Recv().Type()) != m.mapT {
+						onlyTable = false
+					}
+				}
+				if onlyTable && ns > 0 {
+					continue
+				}
+			}
+			n++
 			key := short(f) + ":SetReadDeadline"
 			if vc, isCall := v.(*ssa.Call); isCall && eng.CalleeName(&vc.Call) == "time.Now" {
 				// run only by the one-shot latch: f is the closure handed to Once.Do, or a method all of whose callers are
@@ -824,6 +842,24 @@ func ruleShutdown(c *Ctx) {
 				if call, ok := ins.(*ssa.Call); ok && eng.MethodName(&call.Call) == "SetReadDeadline" {
 					hasDeadline = true
 					dl = call
+				}
+				// ... or through a forwarding method of the association (entry.expireAt(now)): every path of it sets the read
+				// deadline to its time parameter
+				if call, ok := ins.(*ssa.Call); ok {
+					if h := call.Call.StaticCallee(); h != nil && p.InRepo(h) && len(h.Blocks) > 0 && h.Signature.Recv() != nil && eng.TypeName(h.Signature.Recv().Type()) == m.connT {
+						fw := func(i2 ssa.Instruction) bool {
+							hc, ok := i2.(*ssa.Call)
+							if !ok || eng.MethodName(&hc.Call) != "SetReadDeadline" {
+								return false
+							}
+							_, isP := p.Resolve(eng.Arg(&hc.Call, 0)).(*ssa.Parameter)
+							return isP
+						}
+						if okF, _ := eng.MustPass(eng.Point{B: h.Blocks[0], Idx: 0}, fw); okF {
+							hasDeadline = true
+							dl = call
+						}
+					}
 				}
 			}
 		}
